@@ -340,12 +340,17 @@ I_Pause(p) ==
                        s2 == IF s1.stk[p] # <<>> /\ Head(s1.stk[p]) \in {"i.stop2", "i.rs.nodes"} THEN [s1 EXCEPT !.stk[p] = <<>>] ELSE s1
                        s3 == [s2 EXCEPT !.lc = IF s2.lc = p THEN "none" ELSE @]
                    IN S' = Pop(s3, p) /\ H' = IF s3.stk[p] = <<>> /\ p \in Clients THEN HFin(p, "ErrNotRunningWorker") ELSE H
+\* compare-and-swap running -> paused; the status is read again when it has changed in between
 P_Store(p) ==
-  /\ S.pc[p] = "pause.load"
+  /\ S.pc[p] = "pause.load" /\ S.ws = "running"
   /\ S' = Pop([S EXCEPT !.ws = "paused"], p)
   /\ H' = IF Returns(p) /\ p \in Clients THEN [H EXCEPT !.ctl = @ - 1, !.pauseStarts = 0,
                                                           !.epoch = IF S.loc[p].solo /\ H.epoch = "open" THEN "pause" ELSE @]
           ELSE H
+P_Retry(p) ==
+  /\ S.pc[p] = "pause.load" /\ S.ws # "running"
+  /\ S' = [S EXCEPT !.pc[p] = "i.pause"]
+  /\ UNCHANGED H
 
 ---- \* Resume
 C_Resume(c) ==
@@ -354,10 +359,21 @@ C_Resume(c) ==
        [] S.ws = "initiated" -> S' = [Dirty(S) EXCEPT !.pc[c] = "i.start"] /\ H' = [H EXCEPT !.ctl = @ + 1, !.epoch = "open", !.pauseStarts = 0]
        [] S.ws = "running" -> S' = Fin(Dirty(S), c) /\ H' = [H EXCEPT !.epoch = "open", !.pauseStarts = 0]
        [] OTHER -> S' = [Dirty(S) EXCEPT !.pc[c] = "resume.check"] /\ H' = [H EXCEPT !.ctl = @ + 1, !.epoch = "open", !.pauseStarts = 0]
+\* compare-and-swap paused -> running; Resume starts over when the status has changed in between
 R_Store(p) ==
-  /\ S.pc[p] = "resume.check"
+  /\ S.pc[p] = "resume.check" /\ S.ws = "paused"
   /\ S' = [S EXCEPT !.ws = "running", !.pc[p] = "resume.stored"]
   /\ UNCHANGED H
+R_Retry(p) ==
+  /\ S.pc[p] = "resume.check" /\ S.ws # "paused"
+  /\ S' = [S EXCEPT !.pc[p] = "i.resume"]
+  /\ UNCHANGED H
+I_Resume(p) ==
+  /\ S.pc[p] = "i.resume"
+  /\ CASE S.ws = "stopped" -> S' = Fin(S, p) /\ H' = HFin(p, "ErrNotRunningWorker")
+       [] S.ws = "initiated" -> S' = [S EXCEPT !.pc[p] = "i.start"] /\ UNCHANGED H
+       [] S.ws = "running" -> S' = Fin(S, p) /\ H' = HFin(p, "ErrRunningWorker")
+       [] OTHER -> S' = [S EXCEPT !.pc[p] = "resume.check"] /\ UNCHANGED H
 R_Notify(p) ==
   /\ S.pc[p] = "resume.stored" /\ MxFree
   /\ S' = Fin(NotifyS(S), p)
@@ -467,9 +483,14 @@ SA_Stop(p) ==
   /\ S' = [S EXCEPT !.nch[S.loc[p].node] = Append(@, STOP), !.cache = @ \cup {S.loc[p].node}, !.pc[p] = "i.stopall"]
   /\ UNCHANGED H
 \* deferred: status.Store(stopped); cancel()
+\* deferred: status.Store(stopped); releaseWaiters(curProcessing); cancel(); lifecycleMx.Unlock()
 SP_Fin(p) ==
   /\ S.pc[p] = "stop.nodes"
-  /\ S' = Pop([S EXCEPT !.ws = "stopped", !.lc = "none", !.ctxCanc = IF WithCtx THEN @ \cup {S.loc[p].g} ELSE @], p)
+  /\ S' = [S EXCEPT !.ws = "stopped", !.loc[p].n = S.cur, !.pc[p] = "rel.enter", !.stk[p] = <<"i.stop.fin">> \o @]
+  /\ UNCHANGED H
+SP_Fin2(p) ==
+  /\ S.pc[p] = "i.stop.fin"
+  /\ S' = Pop([S EXCEPT !.lc = "none", !.ctxCanc = IF WithCtx THEN @ \cup {S.loc[p].g} ELSE @], p)
   /\ H' = HPop(p, "nil")
 
 ---- \* Restart and start()
@@ -666,8 +687,9 @@ D_Recheck(d) ==
 D_Deq(d) ==
   /\ d \in Disps /\ S.pc[d] = "i.disp.lock" /\ MxFree
   /\ S' = IF S.chanNil \/ S.gen # S.loc[d].g THEN BackOut(d, "handover")
-          ELSE IF Len(S.q) = 0 THEN BackOut(d, "nil")
-          ELSE IF Adapter /\ <<"deq", S.calls.deq>> \in Faults THEN [BackOut(d, "nil") EXCEPT !.calls.deq = @ + 1]
+          \* nothing to take (somebody else took it) or the adapter refuses: Dequeue reports failure (loc.j = 0)
+          ELSE IF Len(S.q) = 0 THEN [S EXCEPT !.loc[d].j = 0, !.pc[d] = "disp.deq"]
+          ELSE IF Adapter /\ <<"deq", S.calls.deq>> \in Faults THEN [S EXCEPT !.loc[d].j = 0, !.calls.deq = @ + 1, !.pc[d] = "disp.deq"]
           ELSE IF Adapter
             THEN \* DequeueWithAckId: the entry stays with the adapter as delivered-unacknowledged; the parsed job is a new object
                  [S EXCEPT !.loc[d].j = Head(S.q), !.q = Tail(@), !.calls.deq = @ + 1, !.nack = @ + 1,
@@ -682,7 +704,8 @@ D_HandOver(d) ==
 \* startProcessing: compare-and-swap to Processing unless Closed
 D_Proc(d) ==
   /\ d \in Disps /\ S.pc[d] = "disp.deq"
-  /\ S' = IF S.jst[S.loc[d].j] = "closed"
+  /\ S' = IF S.loc[d].j = 0 THEN BackOut(d, "nil")         \* ErrFailedToDequeue
+          ELSE IF S.jst[S.loc[d].j] = "closed"
             THEN [S EXCEPT !.loc[d].ok = FALSE, !.pc[d] = "disp.proc"]
             ELSE [S EXCEPT !.jst[S.loc[d].j] = "processing", !.loc[d].ok = TRUE, !.pc[d] = "disp.proc"]
   /\ UNCHANGED H
@@ -800,9 +823,9 @@ ClientStep(c) == C_Add(c) \/ C_AddRejected(c) \/ C_AddNotify(c) \/ C_Close(c) \/
                  \/ C_Restart(c) \/ C_CancelCtx(c) \/ C_Nop(c) \/ C_NoHandle(c) \/ C_AddAll(c) \/ I_AddAllNext(c)
                  \/ C_Result(c) \/ C_BatchWait(c) \/ C_BatchRead(c)
 \* steps of sub-procedures that clients and the context listener share
-SubStep(p) == CT_Marked(p) \/ CT_Wgc(p) \/ CT_RespClose(p) \/ LC_Switch(p) \/ T_Store(p) \/ I_Wuf(p) \/ W_Cond(p) \/ W_Park(p) \/ W_Wake(p) \/ I_Pause(p) \/ P_Store(p) \/ R_Store(p) \/ R_Notify(p)
+SubStep(p) == CT_Marked(p) \/ CT_Wgc(p) \/ CT_RespClose(p) \/ LC_Switch(p) \/ T_Store(p) \/ I_Wuf(p) \/ W_Cond(p) \/ W_Park(p) \/ W_Wake(p) \/ I_Pause(p) \/ P_Store(p) \/ P_Retry(p) \/ R_Store(p) \/ R_Retry(p) \/ I_Resume(p) \/ R_Notify(p)
               \/ T_After(p) \/ T_Loop(p) \/ T_Stop(p) \/ U_Deq(p) \/ U_Close(p)
-              \/ I_Stop(p) \/ I_Stop2(p) \/ S_Chans(p) \/ S_Nodes(p) \/ I_StopAll(p) \/ SA_Stop(p) \/ SP_Fin(p)
+              \/ I_Stop(p) \/ I_Stop2(p) \/ S_Chans(p) \/ S_Nodes(p) \/ I_StopAll(p) \/ SA_Stop(p) \/ SP_Fin(p) \/ SP_Fin2(p) \/ Rel_Eval(p) \/ Rel_Bcast(p)
               \/ I_Restart(p) \/ I_RsNodes(p) \/ I_Rs2(p) \/ RS_Close(p) \/ RS_New(p) \/ RS_Reset(p) \/ RS_Start(p)
               \/ I_Start(p) \/ ST_Go(p) \/ ST_Go2(p) \/ ST_Push(p) \/ ST_Fin(p) \/ ST_Notify(p)
 DispStep(d) == D_Take(d) \/ D_Woken(d) \/ D_Exit(d) \/ D_Check(d) \/ D_Check2(d) \/ D_Reserve(d) \/ D_Recheck(d) \/ D_Deq(d) \/ D_HandOver(d) \/ D_Proc(d) \/ D_Skip(d) \/ D_Node(d) \/ D_Send(d)
